@@ -276,7 +276,7 @@ def sweep_records(seed, tier):
         for rep in range(1 if tier == "quick" else 4):
             k += 1
             rng = random.Random(common.derive_seed("C19-sweep", seed, k))
-            idx = rng.sample(range(nz), 4)
+            idx = rng.sample(range(nz), 6) if tier == "quick" else [j_ % nz for j_ in range(rep * 6, rep * 6 + 6)]  # thorough: all of them
             scripts = [[{"op": "generate", "sql": _corpus.zoo_statements(ti)[j], "read": None, "write": d, "opts": {}} for j in idx] for ti in range(3)]
             out.append({"engine": "threadsim", "config": {"warm": True, "hashseed": 0, "strategy": "random", "sched_seed": rng.getrandbits(48), "mean_gap": rng.choice([10, 100, 1000]),
                                                            "pct_depth": 1, "p_cold": 0.0, "gc_rate": 0.0, "sweep": "write-focus:zoo", "importlib_steps": False},
